@@ -80,6 +80,17 @@ CHECKS["C07"] = dict(level="model_checking", design="5 C07", technique=_PANEL_TE
          "solution TLC evaluates the exact backward-error criterion |K c - f| <= 2^-30 (|K||c| + |f|) row by row with its own "
          "exact K and f, and requires exact zeros on amplitudes without stiffness. Assemblies and bays: see C13.")
 
+CHECKS["C12"] = dict(level="model_checking", design="5 C12", note=_PANEL_NOTE,
+    technique="TLA+ specification ConnectionOps/ConnModel: each connection kind is a list of interface jump functionals; the "
+              "matrix is the Hessian of kt/2 INT|jump|^2 + kr/2 INT(rotation jump)^2 evaluated exactly by TLC; invariants: "
+              "symmetric, non-negative probe forms, linear in kt/kr, zero on rigid (continuous) field pairs, constants "
+              "symmetric and homogeneous; lattice replayed through the fkC* kernels and PanelAssembly.get_k0_conn, verdict by "
+              "TLC trace validation",
+    text="All five kinds (edge-edge along x/y, base-flange along x/y, face-to-face with thickness offset), unequal panels, "
+         "interior interface positions, both orders of the panels in the global vector, explicit and laminate-derived penalty "
+         "constants: every entry of the assembled connection matrix and calc_kt_kr are decided against the exact Hessian. The "
+         "coupling block dropped when p1 follows p2 was found by this check and repaired (fix: commit).")
+
 NOT_YET = {}
 
 NA = {
